@@ -181,8 +181,11 @@ def check_model(ctx: Ctx, base: dict, doc: dict, edits: List[dict], seed: int, b
             roots = touched_roots(base_model, model, edits)
             allroots = [r for r in valuecheck.all_roots(model) if r[0] in ("struct", "msg")]
             extra: List[tuple] = []
-            mini(st.lists(st.integers(0, len(allroots) - 1), min_size=budget["sample_roots"], max_size=budget["sample_roots"]),
-                 1, (seed, "C06roots"), lambda xs: extra.extend(allroots[i] for i in xs))
+            picks: List[List[int]] = []
+            mini(st.lists(st.integers(0, len(allroots) - 1), min_size=budget["sample_roots"], max_size=budget["sample_roots"], unique=True),
+                 4, (seed, "C06roots"), lambda xs: picks.append(xs))
+            extra.extend(allroots[i] for i in picks[-1])   # (the first example is the simplest one: the same root over and over)
+            stats["sampled_other_roots"] += len(set(picks[-1]))
             for root in roots + extra:
                 for name, body, cfg in (("C01", c01.body, None), ("C02", c02.body, tvgen.GenCfg(decimal_ints=False)), ("C03", c03.body, None)):
                     def mk(name, body):
@@ -323,8 +326,9 @@ def _work(args) -> dict:
     F = evolve.Evolver.FOCI
     focus = "+".join(F[i] for i in range(idx % runner.NPROC, len(F), runner.NPROC))
     mini(evolve.evolved(base, 0, 5, focus=focus), n_models + 1, (seed, "C06", "model", idx), lambda x: drawn.append(x))
-    # Hypothesis starts with the simplest example (the same in every shard): keep it in shard 0 only
-    cases.extend(drawn[:n_models] if n_models == 1 else (drawn if idx == 0 else drawn[1:]))
+    # Hypothesis starts with the simplest example - no free edit, every choice the first one, the same for every seed: it is
+    # kept in shard 0 only (next to the identity edit); every shard takes the later, seed-dependent examples
+    cases.extend(drawn if idx == 0 else drawn[1:])
     out["stats"]["focus:" + focus] += len(cases)
     for k, (doc, edits) in enumerate(cases):
         st_ = check_model(ctx, base, doc, edits, derive_seed(seed, idx, k), budget, cli_sample=(k == 0 and idx % 4 == 0))
